@@ -9,6 +9,7 @@ CONSTANTS
   L0 = "r1"
   PairSels = {"cur", "sl", "prev", "next", "pep", "first"}
   MaxOps = 8
+  MaxPend = 0
 INVARIANTS C07_LeaderInISR
 PROPERTIES StepsOK
 VIEW MCView
